@@ -160,13 +160,18 @@ impl Output {
                     verbose_timing_phase!("Create output file");
 
                     if output_config.file_write_mode == FileWriteMode::UnlinkAndReplace {
-                        // Rename the old output file so that we can create a new file in its place.
-                        // Reusing the existing file would also be an option, but that wouldn't
-                        // error if the file is currently being executed.
-                        let renamed_old_file = path.with_extension("delete");
-                        let rename_status = std::fs::rename(&path, &renamed_old_file);
+                        // Move the old output file out of the way so that we can create a new file
+                        // in its place. Reusing the existing file would also be an option, but that
+                        // wouldn't error if the file is currently being executed. We give the old
+                        // file a second name with `hard_link`, which unlike `rename` never replaces
+                        // an existing file, so we can't destroy an unrelated file that happens to
+                        // have the same name as our temporary. Then we remove the original name,
+                        // which is quick, since the file's contents stay alive via the second name.
+                        let renamed_old_file = temporary_sibling_path(&path);
+                        let rename_status = std::fs::hard_link(&path, &renamed_old_file);
+                        let _ = std::fs::remove_file(&path);
 
-                        // If there was an old output file that we renamed, then delete it. We do so
+                        // If there was an old output file that we moved, then delete it. We do so
                         // from a separate task so that it can run in the background while other
                         // threads continue working. Deleting can take a while for large files.
                         if rename_status.is_ok() {
@@ -253,6 +258,16 @@ fn default_file_write_mode(args: &impl platform::Args, output_kind: OutputKind) 
     };
 
     FileWriteMode::UpdateInPlaceWithFallback
+}
+
+/// Returns the name under which we temporarily keep the old output file while it's being deleted in
+/// the background. It's a hidden file in the same directory. It includes our process ID so that
+/// concurrent links in the same directory don't use the same name.
+fn temporary_sibling_path(path: &Path) -> std::path::PathBuf {
+    let mut name = std::ffi::OsString::from(".");
+    name.push(path.file_name().unwrap_or_default());
+    name.push(format!(".wild-old.{}", std::process::id()));
+    path.with_file_name(name)
 }
 
 /// Delete the old output file. Note, this is only used when running from a single thread.
